@@ -64,7 +64,7 @@ _CFG = {
     "C12": {"scenarios": ["modes"], "streams": [GLUE], "trusted": RENDER_TRUST},
     "C13": {"scenarios": ["api"], "streams": [LIFE, LTRACE], "trusted": RUNTIME_TRUST},
     "C14": {"streams": [VT, RENDER_INFO], "scenarios": ["prints"], "rule": RENDER_RULE, "trusted": RENDER_TRUST},
-    "C15": {"streams": [READER], "rule": INPUT_RULE, "trusted": INPUT_TRUST},
+    "C15": {"streams": [DETECT, READER], "rule": INPUT_RULE, "trusted": INPUT_TRUST},
     "C16": {"scenarios": ["filter"], "streams": [PTRACE], "trusted": RUNTIME_TRUST},
     "C17": {"scenarios": ["exec"], "streams": [GLUE], "trusted": RENDER_TRUST + ["input hand-over to the exec'd command depends on cancelreader/epoll semantics: observed on an os.Pipe, not proved"]},
     "C18": {"scenarios": ["pty", "term", "sigexec"], "trusted": RUNTIME_TRUST + ["kernel signal delivery, os/signal.Notify, TIOCGWINSZ/SIGWINCH are outside the model: observed on a pty, not proved"]},
